@@ -603,6 +603,16 @@ BOUNDARY = [
     # reset directly after changing the reference element of a rotated probe
     {"probe": ["M", 2, 1.0, 3, -1.0], "ori": [0.6, 0.0, 0.8], "ops": [["Y", 0.1, 0.2, 0.3, None], ["S", "last"], ["Z"], ["S", "mean"], ["Z"]]},
 ]
+# LARGE arrays (2-D matrix arrays of more than a thousand elements, counts that are not multiples of a thousand or of a power
+# of two; a long linear array): every element and every normal moves with the probe
+BOUNDARY += [
+    {"probe": ["M", 32, 0.3e-3, 32, -0.3e-3], "ori": [0.0, 0.0, 1.0],
+     "ops": [["Y", 0.3, -0.2, 0.1, None], ["T", [0.01, 0.0, -0.02]], ["S", "last"], ["F"], ["Z"]]},
+    {"probe": ["M", 40, 0.5e-3, 30, 0.4e-3], "ori": [0.6, 0.0, 0.8],
+     "ops": [["T", [0.002, 0.001, -0.03]], ["Y", 1.1, 0.4, -0.7, [0.01, 0.0, 0.02]], ["S", 1199], ["O"], ["S", "mean"], ["Z"]]},
+    {"probe": ["M", 2051, 0.1e-3, 1, 1.0], "ori": None,
+     "ops": [["Y", 0.0, 0.5, 0.0, None], ["S", -1], ["Z"], ["F"], ["T", [0.0, 0.0, -0.01]]]},
+]
 for b in BOUNDARY:
     b.update(exact=False, proper=True, kind="boundary")
 
